@@ -22,8 +22,11 @@ for d in sorted(glob.glob(f"{V}/seeded/C*")):
             "demo_exit_without_change": run.get("demo_without_change_exit"),
             "applied_with_3way_merge_onto_later_fixes": run.get("applied_with_3way", False),
         },
-        "commands": [
+        "commands": ["round 7: see what_was_run_in_round_7 (tests-only pass + quick check per change)"] if "_r7" in name and "checks_run" in run else [
             "python -m mc.seedrun seeded/%s/patch.diff seeded/%s/demo.py %s --seeds 0,1   (scratch worktree; suite, demo with/without, ./check %s --tier quick with SCODA_VERIF_ROOT=<worktree>)" % (name, name, pid, pid)],
+        "what_was_run_in_round_7": ({"suite": run.get("suite_run"), "checks": run.get("checks_run"),
+                                     "first_contact_quick_check_exit_seed0": run.get("first_contact_quick_check_exit_seed0")}
+                                    if "_r7" in name else None),
         "quick_check_verdicts": {k: v["exit"] for k, v in checks.items()},
         "violation_signatures": sigs,
         "caught_by_quick_check": caught,
